@@ -13,6 +13,7 @@ import (
 	"crypto/x509/pkix"
 	"encoding/asn1"
 	"fmt"
+	"math/big"
 	"strings"
 	"time"
 
@@ -26,6 +27,8 @@ import (
 	"github.com/notaryproject/notation-go/zzverif/lib/vt"
 	"github.com/opencontainers/go-digest"
 	ocispec "github.com/opencontainers/image-spec/specs-go/v1"
+
+	fw "github.com/notaryproject/notation-plugin-framework-go/plugin"
 )
 
 type attr struct {
@@ -293,6 +296,9 @@ type caseT struct {
 	// Prior 1: the same verifier instance (same identity list) verified, immediately before, a signature whose
 	// leaf carries the full clean subject C=US,ST=WA,O=Acme,OU=eng,CN=alice,L=Seattle,STREET=1 Main.
 	Prior int `json:"prior"`
+	// Plugin 1: the signature names a verification plugin whose only verification capability is the revocation
+	// check (verdict: success) - identities are still the library's job and must be evaluated natively.
+	Plugin int `json:"plugin"`
 }
 
 type world struct {
@@ -304,7 +310,9 @@ type world struct {
 var ctx = context.Background()
 
 func (w *world) leafFor(s subject, idx int) *pki.Chain {
-	leaf := pki.Make(pki.Tmpl{RawSubject: s.rdnSequence()}, pki.Key(pki.EC256, 0), w.inter)
+	// every leaf of this harness has the same key, issuer, validity AND serial number: only the subject differs,
+	// so nothing but the subject can tell two signers apart (a shortcut keyed on anything else collides)
+	leaf := pki.Make(pki.Tmpl{RawSubject: s.rdnSequence(), Serial: big.NewInt(777)}, pki.Key(pki.EC256, 0), w.inter)
 	return &pki.Chain{Certs: []*pki.Cert{leaf, w.inter, w.root}}
 }
 
@@ -325,10 +333,19 @@ func (w *world) runWith(r *hx.Run, c caseT, env []byte, priorEnv []byte) {
 		if c.Prior == 1 {
 			key += ":after-earlier-verification-on-same-verifier"
 		}
+		if c.Plugin == 1 {
+			key += ":with-revocation-only-plugin"
+		}
 		r.Violation(key, fmt.Sprintf("%s | leaf=%s (%v) identities=%q prior=%d", what, c.Subject.Label, c.Subject.RDNs, ids, c.Prior), c)
 	}
 	r.Eval(1)
-	v, err := verifier.NewVerifierWithOptions(ts, verifier.VerifierOptions{OCITrustPolicy: vt.OCIDoc(trustpolicy.SignatureVerification{VerificationLevel: "strict"}, []string{"ca:s"}, ids), RevocationCodeSigningValidator: mocks.AllOK()})
+	vopts := verifier.VerifierOptions{OCITrustPolicy: vt.OCIDoc(trustpolicy.SignatureVerification{VerificationLevel: "strict"}, []string{"ca:s"}, ids), RevocationCodeSigningValidator: mocks.AllOK()}
+	if c.Plugin == 1 {
+		mgr := mocks.NewManager()
+		mgr.Plugins["p"] = &mocks.VerifyPlugin{Name: "p", Version: "1.0.0", Capabilities: []fw.Capability{fw.CapabilityRevocationCheckVerifier}, ProcessAll: true}
+		vopts.PluginManager = mgr
+	}
+	v, err := verifier.NewVerifierWithOptions(ts, vopts)
 	leafAttrs := c.Subject.attrs()
 	want := c.List.Wild || (c.Subject.interpretable() && subsetMatch(c.List, leafAttrs))
 	if err != nil {
@@ -453,7 +470,11 @@ func main() {
 			r.Finish()
 		}
 		ch := w.leafFor(c.Subject, 0)
-		env := forge.Build(forge.Spec{Format: forge.Formats[c.Format], Chain: ch.X509(), Key: ch.Leaf().Key, Payload: forge.PayloadFor(w.desc), SigningTime: time.Now().Add(-time.Hour)})
+		rsp := forge.Spec{Format: forge.Formats[c.Format], Chain: ch.X509(), Key: ch.Leaf().Key, Payload: forge.PayloadFor(w.desc), SigningTime: time.Now().Add(-time.Hour)}
+		if c.Plugin == 1 {
+			rsp.Ext = []forge.Attr{{Key: forge.HdrPlugin, Critical: true, Value: "p"}}
+		}
+		env := forge.Build(rsp)
 		if c.Prior == 1 {
 			fullSubj := plain("prior-full", attr{"C", "US"}, attr{"ST", "WA"}, attr{"O", "Acme"}, attr{"OU", "eng"}, attr{"CN", "alice"}, attr{"L", "Seattle"}, attr{"STREET", "1 Main"})
 			pch := w.leafFor(fullSubj, 0)
@@ -484,9 +505,11 @@ func main() {
 		}
 		for f := 0; f < 2; f++ {
 			env := forge.Build(forge.Spec{Format: forge.Formats[f], Chain: ch.X509(), Key: ch.Leaf().Key, Payload: forge.PayloadFor(w.desc), SigningTime: time.Now().Add(-time.Hour)})
+			envPlug := forge.Build(forge.Spec{Format: forge.Formats[f], Chain: ch.X509(), Key: ch.Leaf().Key, Payload: forge.PayloadFor(w.desc), SigningTime: time.Now().Add(-time.Hour), Ext: []forge.Attr{{Key: forge.HdrPlugin, Critical: true, Value: "p"}}})
 			for _, l := range lists {
 				w.run(r, caseT{Subject: s, List: l, Format: f}, env)
 				w.runWith(r, caseT{Subject: s, List: l, Format: f, Prior: 1}, env, priorEnvs[f])
+				w.run(r, caseT{Subject: s, List: l, Format: f, Plugin: 1}, envPlug)
 			}
 		}
 		if i%17 == 0 {
